@@ -103,6 +103,11 @@ def gen_program(rng, idx, inputs=("A",), divisors=(2, -2, 3, 4), max_factors=3):
             lines.append(f"        {gen_expr(rng, atoms)}")
             lines.append("        if offdiagonal:")
             lines.append(f"            {gen_expr(rng, atoms)}")
+        if mark is None and rng.random() < 0.3:
+            # an explicit `lower` condition, as the LAST line of the definition: everything above it is summed
+            # for lower-triangle blocks too
+            lines.append("        if lower:")
+            lines.append(f"            {gen_expr(rng, atoms)}")
     # products that ARE Hermitian and are DECLARED hermitian (the Hermiticity shortcut must not change them):
     # Sd = Sx^dagger, Hh = A + A^dagger;  "Sd @ Sx" and (if allowed) the n-ary "Sd @ Hh @ Sx"
     herm_products = []
